@@ -601,10 +601,17 @@ J_C13(i) ==
       ForAll(DOMAIN e.out, LAMBDA k :
          LET n == Len(SelectSeq(e.out[k], LAMBDA q : q.t = CONNACK)) IN
          If(n + Get(g.connacks, k, 0) > 1 \/ (n > 0 /\ ~(e.ev = "connect" /\ e.k = k)), Cmp("C13.extra-connack", k, "", n))),
+      \* a first packet that is not a CONNECT (raw bytes): no session, at most a failure CONNACK, connection closed
+      IF e.ev = "connect" /\ e.err = "" /\ e.a.hex # "" THEN
+      Cat(<<If(ConnackOK(e), Cmp("C13.non-connect-admitted", e.c, "", 0)),
+            If(~(HasConn(e.conns, e.k) /\ ConnRec(e.conns, e.k).eof), Cmp("C13.refused-but-open", e.c, "", 1)),
+            If(HasClient(e.st, e.c) /\ ClientRec(e.st, e.c).k = e.k, Cmp("C13.refused-but-session", e.c, "", 1))>>)
+      ELSE
       IF e.ev # "connect" \/ e.err # "" \/ e.a.hex # "" THEN <<>> ELSE
       Cat(<<If(ConnackOK(e) /\ ~AuthAllows(e.a), Cmp("C13.admitted-without-authentication", e.c, "", 0)),
             If(ConnackOK(e) /\ ~ValidConnect(e.a), Cmp("C13.invalid-connect-admitted", e.c, "", e.a.rawflags)),
-            If(~ConnackOK(e) /\ ~ClosedInStep(e), Cmp("C13.refused-but-open", e.c, "", 0)),
+            \* (closed by the broker: the connection itself, not merely its handler, has ended)
+            If(~ConnackOK(e) /\ ~(HasConn(e.conns, e.k) /\ ConnRec(e.conns, e.k).eof), Cmp("C13.refused-but-open", e.c, "", 0)),
             If(~ConnackOK(e) /\ HasClient(e.st, e.c) /\ ClientRec(e.st, e.c).k = e.k, Cmp("C13.refused-but-session", e.c, "", 0)),
             If(ValidConnect(e.a) /\ AuthAllows(e.a) /\ ~ConnackOK(e) /\ (cfg.max_clients = 0 \/ Pre(i).info.connected < cfg.max_clients),
                Cmp("C13.valid-connect-refused", e.c, "", IF Len(Connacks(e)) > 0 THEN Connacks(e)[1].rc ELSE -1))>>)
@@ -650,9 +657,12 @@ J_C15(i) ==
     Cat(<<
       \* housekeeping discards only sessions that are disconnected and whose interval has elapsed
       IF e.ev = "tick" /\ e.a.kind = "clients" THEN
-         ForAll({c \in Clients(pre) : ~HasClient(post, c.id)}, LAMBDA c :
-            Cat(<<If(~c.closed, Cmp("C15.connected-session-discarded", c.id, "", 0)),
-                  If(c.closed /\ ~(e.tick - c.stop_time > ExpiryOf(c)), Cmp("C15.discarded-before-expiry", c.id, "", e.tick - c.stop_time))>>))
+         Cat(<<ForAll({c \in Clients(pre) : ~HasClient(post, c.id)}, LAMBDA c :
+                  Cat(<<If(~c.closed, Cmp("C15.connected-session-discarded", c.id, "", 0)),
+                        If(c.closed /\ ~(e.tick - c.stop_time > ExpiryOf(c)), Cmp("C15.discarded-before-expiry", c.id, "", e.tick - c.stop_time))>>)),
+               \* ... and the housekeeping run does discard every disconnected session whose (capped) interval has elapsed
+               ForAll({c \in Clients(pre) : HasClient(post, c.id) /\ c.closed /\ ~c.inline /\ c.stop_time > 0 /\ e.tick - c.stop_time > ExpiryOf(c)}, LAMBDA c :
+                  Cmp("C15.expired-session-kept-by-housekeeping", c.id, "", e.tick - c.stop_time))>>)
       ELSE <<>>,
       \* a session that ends at disconnect is gone after the disconnect
       IF e.ev \in {"disconnect", "netdrop"} /\ e.err = "" /\ HasClient(pre, e.c) /\ ClientRec(pre, e.c).k = e.k THEN
